@@ -279,6 +279,7 @@ def run(repo='/repo', tier='quick'):
     c14g(db, res)
     c14h(db, res)
     c14i(db, res)
+    c14j(db, res)
     res.assumptions.append('byte-exact parts and equality of flags across chunkings are not decided')
     return res
 
@@ -376,3 +377,53 @@ def c14h(db, res):
     res.check(bad is None and n > 0, 'C14.h', 'htp_mpartp_finalize:set-aside-CR-released', 'all %d paths to the finalisation of the last part release the set-aside CR or know there is none' % n,
               'htp_mpartp_finalize finalises the last part on a path (%s) that neither runs htp_martp_process_aside nor knows cr_aside == 0: a CR that is the last byte of the stream is dropped from the last part' % (bad,), f.loc)
     res.floor('C14.h', 'finalisations of the last part', len(fins), 1)
+
+
+def c14j(db, res):
+    """htp_mpartp_parse is a byte-at-a-time automaton: what it has seen is in parser_state and the carried markers, so the result
+    cannot depend on where the body was cut. The one place where it looks at the byte *after* the cursor (CR followed by LF in
+    part data) has a separate arm for "the CR is the last byte of this chunk", which only records the CR. A look-ahead whose
+    "no byte there" case falls into the same arm as "a different byte there" decides on a byte it has not seen: the flags and
+    the next state then depend on the cut."""
+    res.rule('C14.j', 'look-ahead in the multipart automaton decides nothing at the end of a chunk: for every read data[pos + k] in htp_mpartp_parse, the paths taken when pos + k is not below len raise no format flag and store no parser state before the next byte is fetched')
+    f = db.get('htp_mpartp_parse')
+    n = 0
+    sites = []
+    for b in sorted(f.blocks):
+        exprs = list(f.blocks[b]['stmts'])
+        c = f.cond_of(b)
+        if c:
+            exprs.append(c[0])
+        for e_ in exprs:
+            for x in nodes(e_, lambda y: y.get('k') == 'index'):
+                i = strip(x['idx'])
+                if i.get('k') == 'bin' and i['op'] == '+' and strip(i['l']).get('k') == 'var' and is_lit(strip(i['r'])) and strip(i['r'])['v'] >= 1 and P.K(strip(x['base'])) == 'data':
+                    sites.append((b, strip(i['l'])['name'], strip(i['r'])['v'], x))
+    for b, cur, k, x in sites:
+        term = '(%s + %d)' % (cur, k)
+        guard = [(a, e) for a, e in P.facts_at(f, b) if a[0] == term and a[2] == 'len' and a[1] in ('<', '!=')]
+        if not guard:
+            res.unknown('C14.j', 'htp_mpartp_parse:data[%s+%d]:no-guard' % (cur, k), 'no dominating test of %s against len found (bounds are C01.b\'s business)' % term, x.get('loc', f.loc))
+            continue
+        n += 1
+        (a, (gb, gi)) = guard[-1]
+        other = f.blocks[gb]['succs'][1 - gi]
+        bad = None
+        for atoms, events, end, seq in P.enum_paths_seq(f, (other, -1), max_paths=50000):
+            feas = True
+            for a2, e2 in atoms:
+                if a2[0] == term and a2[2] == 'len' and k == 1 and a2[1] in ('<', '!=', '>'):
+                    feas = False                           # pos < len holds in the loop, so "not below len" means pos + 1 == len
+            if not feas:
+                continue
+            for s_ in seq:
+                if s_[0] != 'stmt':
+                    continue
+                if P.assigns_field(s_[3], 'parser_state') or any(y.get('op') == '|=' and 'flags' in P.K(y['l']) for y in nodes(s_[3], lambda y: y.get('k') == 'assign')):
+                    bad = s_[3]
+                    break
+            if bad is not None:
+                break
+        res.check(bad is None, 'C14.j', 'htp_mpartp_parse:data[%s+%d]:end-of-chunk-arm' % (cur, k), 'the end-of-chunk arm only records what was seen',
+                  'htp_mpartp_parse reads data[%s + %d] and, when that byte is not in this chunk, goes on to raise a flag or change the parser state (%s): "no byte yet" is treated like "a different byte", so the format flags and the parts depend on where the body was cut' % (cur, k, S(bad)[:80] if bad is not None else ''), x.get('loc', f.loc))
+    res.floor('C14.j', 'guarded look-ahead reads in htp_mpartp_parse', n, 1)
